@@ -124,6 +124,8 @@ def run_case(sname, cfg, pname, seed, tier, res=None, only=None):
                 for n_, p_ in m32.named_parameters():
                     if any(t in n_ for t in ("unconstrained_upper_diag", "unconstrained_diagonal", "log_upper_diag", "log_scale", "unconstrained_weight")):
                         p_.fill_(v if "log_" not in n_ else (v if v < 0 else 1.25))
+                    if n_ == "_weight" and sname == "NaiveLinear":
+                        p_.mul_(0.05 if v < 0 else 3.5)  # orthogonal matrix times a moderate factor: the determinant itself leaves the float32 range
         m64 = copy.deepcopy(m32).double()
     except Exception as e:
         if res is not None:
@@ -346,7 +348,7 @@ def units(tier, seed):
     us = [("t", name, cfg, tier, seed) for name, s in C.SUBJECTS.items() for cfg in C.enum_configs(s, k)]
     us += [("d", name, cfg, tier, seed) for name, d in DC.DSUBJECTS.items() if d.torch_tensor_api for cfg in DC.enum_configs(d, k)]
     # wide layers: products/sums over ~100 factors are where float32 range and accumulation errors show up
-    for name, over in (("LULinear", {"features": 96}), ("QRLinear", {"features": 96}), ("SVDLinear", {"features": 96}), ("OneByOneConvolution", {"channels": 48}),
+    for name, over in (("NaiveLinear", {"features": 96, "orth": True}), ("LULinear", {"features": 96}), ("QRLinear", {"features": 96}), ("SVDLinear", {"features": 96}), ("OneByOneConvolution", {"channels": 48}),
                        ("ActNorm", {"features": 96}), ("BatchNorm", {"features": 96}), ("MaskedAffineAutoregressiveTransform", {"features": 32, "hidden": 16})):
         for wide in ("small", "large"):
             cfg = dict(C.SUBJECTS[name].default())
